@@ -362,7 +362,7 @@ def explore(spaces, jobs=16, max_viol=40, log=None, task_timeout=None):
     task_timeout = max([task_timeout] + [float(getattr(sp, 'task_timeout', 0) or 0) for sp in spaces])
     ctx = mp.get_context('fork')
     tasks = ctx.Queue()
-    results = ctx.Queue()
+    results = ctx.SimpleQueue()      # no feeder thread in the workers: every task is forked from a single-threaded process
     stop = ctx.Event()
 
     # parent part: BFS down to split_depth
@@ -441,8 +441,8 @@ def explore(spaces, jobs=16, max_viol=40, log=None, task_timeout=None):
     try:
         while len(got) < len(task_list):
             try:
-                msg = results.get(timeout=2.0)
-            except _queue.Empty:
+                msg = results.get() if results._reader.poll(2.0) else None
+            except (_queue.Empty, EOFError, OSError):
                 msg = None
             now = time.time()
             for pid, k in slot_of.items():
